@@ -57,6 +57,10 @@ CLAIMED = {
           "(i) 1-3 updater threads (increment-only counter, single-writer absolute counter, gauge sets, histogram records) race a flusher thread calling the real State::flush; oracle per key over the whole run with three quiescent flushes at the end: deltas add up exactly, cumulative deltas never exceed what was added, every flush carries a value the gauge held in its window, every histogram value in exactly one flush, exactly one idle zero then silence, |T present exactly in the mode documented to send it, prefix and tag order. (ii) the built exporter on virtual time against simulated UDP / unixgram / unix-stream peers with send faults: framing, well-formedness, and the same conservation oracle per flush cycle in fault-free runs. The inverted timestamp rule and the update-count-keyed idle logic were found and repaired; the first-absolute/flush race is a recorded known finding.",
           "Sequentially consistent interleavings only; sampling is off (exact identities); in (ii) application updates happen mid-interval (races are (i)'s job).",
           "DESIGN.md 4/C10"),
+  "C11": ("deterministic simulation (dsim) with fault injection: the real run_transport event loop over a simulated mio (poll, waker, listener, stream pipes) with slow, stalled, closing and resetting clients, partial writes, EAGAIN, EINTR, EPIPE",
+          "Seeded scripts of describe / connect / burst (1-2 emitter threads) / read / stall / close / reset / idle steps drive the built exporter; pipe capacities from 1 byte up force partial writes inside frames; seeded faults on every write and poll. Each client's byte stream is decoded by a hand-written protobuf decoder: whole length-delimited Events only (a fragment only on killed connections), metadata before metrics and only what was described, metric name/labels/operation intact, no duplicate, per-emitter and per-burst order, full delivery to prompt roomy clients, and - after faults stop and everybody drained - delivery of a final burst to every still-connected client for every buffer configuration including None. Three genuine defects found this way were repaired.",
+          "Sequentially consistent interleavings only; mio is replaced under the guard by a shim with the same API subset whose behaviours (edge-triggered readiness, EAGAIN followed by a writable edge) follow epoll semantics; client and metadata maps are ordered maps under the guard; bursts stay within the configured buffer between transport-idle points.",
+          "DESIGN.md 4/C11"),
 }
 
 NOT_APPLICABLE = {
